@@ -1,9 +1,12 @@
 /-
   Proofs/C13/Reply — the 401 response is well-formed (`Spec.reply401Ok`) for every date text
-  without CR/LF.
+  without CR/LF.  The free text of the response (Gen/Texts.lean) enters only through the facts of
+  Proofs/Texts/Facts; the body is arbitrary.
 -/
 import Masscanned.Model.Http
 import Masscanned.Spec.Http
+import Masscanned.Proofs.Texts.Reply
+import Masscanned.Proofs.Texts.Dec
 namespace Masscanned.C13.Aux
 open Masscanned Spec
 
@@ -58,6 +61,20 @@ theorem splitOnce_skip (l : Bytes) (hl : ∀ b ∈ l, b ≠ 10) (fuel : Nat) (x 
     rw [e, List.cons_append, splitOnce_succ, pre_ne b _ _ 10 hb]
     simp only [Bool.false_eq_true, if_false, this]
     cases splitOnce [10, 10] fuel x <;> simp
+
+/-- a CR-free prefix is skipped by the search for a separator starting with CR -/
+theorem splitOnce_skip_cr (sep : Bytes) (l : Bytes) (hl : (13 : UInt8) ∉ l) (fuel : Nat) (x : Bytes) :
+    splitOnce (13 :: sep) (fuel + l.length) (l ++ x) =
+      (splitOnce (13 :: sep) fuel x).map (fun ar => (l ++ ar.1, ar.2)) := by
+  induction l with
+  | nil => cases h : splitOnce (13 :: sep) fuel x <;> simp [h]
+  | cons b t ih =>
+    have hb : b ≠ 13 := by intro e; subst e; simp at hl
+    have := ih (by intro e; apply hl; simp [e])
+    have e : fuel + (b :: t).length = (fuel + t.length) + 1 := by simp only [List.length_cons]; omega
+    rw [e, List.cons_append, splitOnce_succ, pre_ne b _ _ 13 hb]
+    simp only [Bool.false_eq_true, if_false, this]
+    cases splitOnce (13 :: sep) fuel x <;> simp
 
 theorem splitOnce_lf_ne (c : UInt8) (hc : c ≠ 10) (fuel : Nat) (x : Bytes) :
     splitOnce [10, 10] (fuel + 1) (10 :: c :: x) =
@@ -133,17 +150,15 @@ theorem splitLines_lines (L : List Bytes) (hL : L ≠ [])
 
 /-! ### header lookup -/
 
-/-- the line-selection predicate of `headerValue` -/
-def hdrPred (n l : Bytes) : Bool := decide ((l.take n.length).map lowerB = n.map lowerB)
-
+/-- the line-selection predicate of `headerValue` is `Texts.isHdr` -/
 theorem headerValue_eq (lines : List Bytes) (name : String) :
     headerValue lines name =
-      (lines.find? (hdrPred (name ++ ":").toUTF8.toList)).map
+      (lines.find? (Texts.isHdr (name ++ ":").toUTF8.toList)).map
         (fun l => trimSp (l.drop (name ++ ":").toUTF8.toList.length)) := rfl
 
-theorem hdrPred_head_ne (c : UInt8) (n : Bytes) (d0 : UInt8) (l : Bytes)
-    (h : lowerB d0 ≠ lowerB c) : hdrPred (c :: n) (d0 :: l) = false := by
-  simp [hdrPred, h]
+theorem isHdr_head_ne (c : UInt8) (n : Bytes) (d0 : UInt8) (l : Bytes)
+    (h : lowerB d0 ≠ lowerB c) : Texts.isHdr (c :: n) (d0 :: l) = false := by
+  simp [Texts.isHdr, h]
 
 /-! ### the generic statement -/
 
@@ -164,157 +179,176 @@ theorem mem_intercalate (x : UInt8) (L : List Bytes) (h : x ∈ [10].intercalate
         · exact Or.inl h
         · exact Or.inr ⟨l2, by simp [hl2], hx⟩
 
+/-- a header block of non-empty lines without CR/LF, the empty line, ANY body: well-formed if the first
+    line is the status line, a WWW-Authenticate header exists and the first Content-Length header carries
+    the number of body bytes.  (A CR LF CR LF inside the body comes later than the LF LF ending the header
+    block, and the earlier separator is the one `reply401Ok` takes.) -/
 theorem reply401Ok_of_lines (l0 : Bytes) (rest : List Bytes) (body : Bytes)
     (hclean : ∀ l ∈ l0 :: rest, l ≠ [] ∧ (10 : UInt8) ∉ l ∧ (13 : UInt8) ∉ l)
-    (hbody : (13 : UInt8) ∉ body)
     (h0 : "HTTP/1.1 401".toUTF8.toList.isPrefixOf l0 = true)
     (hw : (headerValue rest "WWW-Authenticate").isSome = true)
     (hc : (headerValue rest "Content-Length").bind parseDec = some body.length) :
     reply401Ok ([10].intercalate (l0 :: rest) ++ 10 :: 10 :: body) = true := by
-  have h13 : (13 : UInt8) ∉ [10].intercalate (l0 :: rest) ++ 10 :: 10 :: body := by
+  generalize hH : [10].intercalate (l0 :: rest) = H
+  have h13 : (13 : UInt8) ∉ H ++ [10, 10] := by
     intro hmem
     rw [List.mem_append] at hmem
     rcases hmem with hmem | hmem
-    · rcases mem_intercalate 13 _ hmem with e | ⟨l, hl, hx⟩
+    · rw [← hH] at hmem
+      rcases mem_intercalate 13 _ hmem with e | ⟨l, hl, hx⟩
       · exact absurd e (by decide)
       · exact (hclean l hl).2.2 hx
     · simp at hmem
-      exact hbody hmem
+  have hcr : splitOnce [13, 10, 13, 10] ((H ++ 10 :: 10 :: body).length + 1) (H ++ 10 :: 10 :: body) =
+      (splitOnce [13, 10, 13, 10] (body.length + 1) body).map (fun ar => ((H ++ [10, 10]) ++ ar.1, ar.2)) := by
+    have e : H ++ 10 :: 10 :: body = (H ++ [10, 10]) ++ body := by simp
+    have e2 : ((H ++ [10, 10]) ++ body).length + 1 = (body.length + 1) + (H ++ [10, 10]).length := by
+      simp only [List.length_append]; omega
+    rw [e, e2, splitOnce_skip_cr _ _ h13]
+  have hlf : splitOnce [10, 10] ((H ++ 10 :: 10 :: body).length + 1) (H ++ 10 :: 10 :: body) =
+      some (H, body) := by
+    rw [← hH]
+    exact splitOnce_lines (l0 :: rest) (by simp) (fun l hl => ⟨(hclean l hl).1, (hclean l hl).2.1⟩) body _
+      (by simp only [List.length_append, List.length_cons]; omega)
+  have hlines : splitLines H = l0 :: rest := by
+    rw [← hH]
+    exact splitLines_lines (l0 :: rest) (by simp) (fun l hl => ⟨(hclean l hl).2.1, by
+      intro hlast
+      exact (hclean l hl).2.2 (List.mem_of_getLast? hlast)⟩)
   unfold reply401Ok
   simp only [CR, LF]
-  rw [splitOnce_none 13 _ _ _ h13,
-    splitOnce_lines (l0 :: rest) (by simp) (fun l hl => ⟨(hclean l hl).1, (hclean l hl).2.1⟩) body _
-      (by simp only [List.length_append, List.length_cons]; omega)]
-  simp only []
-  rw [splitLines_lines (l0 :: rest) (by simp) (fun l hl => ⟨(hclean l hl).2.1, by
-    intro hlast
-    exact (hclean l hl).2.2 (List.mem_of_getLast? hlast)⟩)]
-  simp only [List.head?_cons, List.tail_cons, h0, hw, hc, Bool.and_true, Bool.true_and]
-  simp
+  rw [hcr, hlf]
+  cases splitOnce [13, 10, 13, 10] (body.length + 1) body with
+  | none =>
+    simp only [Option.map_none]
+    rw [hlines]
+    simp only [List.head?_cons, List.tail_cons, h0, hw, hc, Bool.and_true, Bool.true_and]
+    simp
+  | some ar =>
+    have hlen : ¬ (H ++ [10, 10] ++ ar.1).length ≤ H.length := by
+      simp only [List.length_append, List.length_cons, List.length_nil]; omega
+    simp only [Option.map_some, hlen, if_false]
+    rw [hlines]
+    simp only [List.head?_cons, List.tail_cons, h0, hw, hc, Bool.and_true, Bool.true_and]
+    simp
 
-/-! ### the concrete response -/
+/-! ### the response of the model -/
 
-def rl0 : Bytes := "HTTP/1.1 401 Unauthorized".toUTF8.toList
-def rl1 : Bytes := "Server: nginx/1.14.2".toUTF8.toList
-def rlDate : Bytes := "Date: ".toUTF8.toList
-def rl3 : Bytes := "Content-Type: text/html".toUTF8.toList
-def rl4 : Bytes := "Content-Length: 188".toUTF8.toList
-def rl5 : Bytes := "Connection: keep-alive".toUTF8.toList
-def rl6 : Bytes := "WWW-Authenticate: Basic realm=\"Access to admin page\"".toUTF8.toList
+theorem intercalate_eq_glue (l0 : Bytes) (rest : List Bytes) :
+    [10].intercalate (l0 :: rest) = l0 ++ Texts.glue rest := by
+  induction rest generalizing l0 with
+  | nil => simp [Texts.glue]
+  | cons l ls ih =>
+    rw [List.intercalate_cons_cons, ih l, Texts.glue_cons]
+    simp only [List.append_assoc, List.cons_append, List.nil_append]
 
-theorem content_length : httpContent.length = 188 := by decide +kernel
+theorem clean_of_all {L : List Bytes}
+    (h : L.all (fun l => !l.isEmpty && !l.contains 10 && !l.contains 13) = true) :
+    ∀ l ∈ L, l ≠ [] ∧ (10 : UInt8) ∉ l ∧ (13 : UInt8) ∉ l := by
+  intro l hl
+  have := List.all_eq_true.1 h l hl
+  simp only [Bool.and_eq_true, Bool.not_eq_true', List.isEmpty_eq_false_iff, List.contains_eq_mem,
+    decide_eq_false_iff_not] at this
+  exact ⟨this.1.1, this.1.2, this.2⟩
 
-theorem reply_head_a :
-    "HTTP/1.1 401 Unauthorized\nServer: nginx/1.14.2\nDate: ".toUTF8.toList =
-      rl0 ++ 10 :: (rl1 ++ 10 :: rlDate) := by decide +kernel
+theorem append_clean {a b : Bytes} (ha : a ≠ [] ∧ (10 : UInt8) ∉ a ∧ (13 : UInt8) ∉ a)
+    (hb : ∀ x ∈ b, x ≠ 10 ∧ x ≠ 13) : a ++ b ≠ [] ∧ (10 : UInt8) ∉ a ++ b ∧ (13 : UInt8) ∉ a ++ b := by
+  refine ⟨?_, ?_, ?_⟩
+  · intro e; exact ha.1 (List.append_eq_nil_iff.1 e).1
+  · intro hm
+    rcases List.mem_append.1 hm with h | h
+    · exact ha.2.1 h
+    · exact (hb _ h).1 rfl
+  · intro hm
+    rcases List.mem_append.1 hm with h | h
+    · exact ha.2.2 h
+    · exact (hb _ h).2 rfl
 
-theorem reply_head_b :
-    "\nContent-Type: text/html\nContent-Length: ".toUTF8.toList ++ natDec httpContent.length =
-      10 :: (rl3 ++ 10 :: rl4) := by decide +kernel
+theorem find?_skip {p : Bytes → Bool} (L : List Bytes) (h : L.any p = false) (M : List Bytes) :
+    (L ++ M).find? p = M.find? p := by
+  induction L with
+  | nil => rfl
+  | cons l ls ih =>
+    simp only [List.any_cons, Bool.or_eq_false_iff] at h
+    rw [List.cons_append, List.find?_cons, h.1]
+    exact ih h.2
 
-theorem reply_head_c :
-    "\nConnection: keep-alive\nWWW-Authenticate: Basic realm=\"Access to admin page\"\n\n".toUTF8.toList =
-      10 :: (rl5 ++ 10 :: (rl6 ++ [10, 10])) := by decide +kernel
+theorem dropWhile_id (p : UInt8 → Bool) (l : Bytes) (h : ∀ b ∈ l, p b = false) : l.dropWhile p = l := by
+  cases l with
+  | nil => rfl
+  | cons a t => rw [List.dropWhile_cons, h a (by simp)]; rfl
 
-/-- the response is seven header lines joined by LF, an empty line, and the 188-byte body -/
-theorem reply_shape (env : Env) :
-    httpReplyBytes env =
-      [10].intercalate (rl0 :: [rl1, rlDate ++ env.httpDate, rl3, rl4, rl5, rl6]) ++
-        10 :: 10 :: httpContent := by
-  unfold httpReplyBytes
-  rw [reply_head_a, reply_head_c]
-  have hb := reply_head_b
-  generalize "\nContent-Type: text/html\nContent-Length: ".toUTF8.toList = B at hb ⊢
-  generalize natDec httpContent.length = N at hb ⊢
-  generalize httpContent = body
-  have : rl0 ++ 10 :: (rl1 ++ 10 :: rlDate) ++ env.httpDate ++ B ++ N ++
-      10 :: (rl5 ++ 10 :: (rl6 ++ [10, 10])) ++ body =
-      rl0 ++ 10 :: (rl1 ++ 10 :: (rlDate ++ env.httpDate)) ++ (B ++ N) ++
-      10 :: (rl5 ++ 10 :: (rl6 ++ [10, 10])) ++ body := by
-    simp only [List.append_assoc, List.cons_append]
-  rw [this, hb]
-  simp only [List.intercalate_cons_cons, List.intercalate_singleton, List.append_assoc,
-    List.cons_append, List.nil_append]
+/-- the value of a header line `name ":" SP digits` -/
+theorem trimSp_sp_digits (d : Bytes) (h : ∀ b ∈ d, b ≠ 32) : trimSp (32 :: d) = d := by
+  have hp : ∀ b ∈ d, (decide (b = SP)) = false := by
+    intro b hb; simp only [SP]; exact decide_eq_false (h b hb)
+  have hp' : ∀ b ∈ d.reverse, (decide (b = SP)) = false := by
+    intro b hb; exact hp b (List.mem_reverse.1 hb)
+  unfold trimSp
+  have e : List.dropWhile (fun x => decide (x = SP)) (32 :: d) = d := by
+    rw [List.dropWhile_cons]
+    simp only [SP, decide_true, if_true]
+    exact dropWhile_id _ d hp
+  rw [e, dropWhile_id _ _ hp', List.reverse_reverse]
 
-theorem concrete_clean :
-    ∀ l ∈ [rl0, rl1, rlDate, rl3, rl4, rl5, rl6], l ≠ [] ∧ (10 : UInt8) ∉ l ∧ (13 : UInt8) ∉ l := by
-  decide +kernel
+/-- the Date line is neither a WWW-Authenticate nor a Content-Length header, whatever the date -/
+theorem predC_date (date : Bytes) : Texts.isHdr Texts.clName (Texts.datePre ++ date) = false := by
+  rw [Texts.datePre_head, List.cons_append, Texts.clName_head]
+  exact isHdr_head_ne _ _ _ _ (by decide)
 
-theorem content_no_cr : (13 : UInt8) ∉ httpContent := by decide +kernel
+/-- the computed line "Content-Length: " digits is selected as Content-Length header -/
+theorem predC_cl (d : Bytes) : Texts.isHdr Texts.clName (Texts.clPre ++ d) = true := by
+  rw [Texts.clPre_eq]
+  simp [Texts.isHdr]
 
-theorem status_prefix : "HTTP/1.1 401".toUTF8.toList.isPrefixOf rl0 = true := by decide +kernel
-
-theorem nW_head : ("WWW-Authenticate" ++ ":").toUTF8.toList =
-    119 :: ("WWW-Authenticate" ++ ":").toUTF8.toList.tail ∨
-    ("WWW-Authenticate" ++ ":").toUTF8.toList = 87 :: ("WWW-Authenticate" ++ ":").toUTF8.toList.tail := by
-  decide +kernel
-
-theorem nC_head : ("Content-Length" ++ ":").toUTF8.toList =
-    67 :: ("Content-Length" ++ ":").toUTF8.toList.tail := by
-  decide +kernel
-
-theorem rlDate_head : rlDate = 68 :: rlDate.tail := by decide +kernel
-
-theorem predW_date (date : Bytes) :
-    hdrPred ("WWW-Authenticate" ++ ":").toUTF8.toList (rlDate ++ date) = false := by
-  rw [rlDate_head, List.cons_append]
-  rcases nW_head with h | h <;> rw [h] <;> exact hdrPred_head_ne _ _ _ _ (by decide)
-
-theorem predC_date (date : Bytes) :
-    hdrPred ("Content-Length" ++ ":").toUTF8.toList (rlDate ++ date) = false := by
-  rw [rlDate_head, List.cons_append, nC_head]
-  exact hdrPred_head_ne _ _ _ _ (by decide)
-
-theorem predW_concrete :
-    hdrPred ("WWW-Authenticate" ++ ":").toUTF8.toList rl1 = false ∧
-    hdrPred ("WWW-Authenticate" ++ ":").toUTF8.toList rl3 = false ∧
-    hdrPred ("WWW-Authenticate" ++ ":").toUTF8.toList rl4 = false ∧
-    hdrPred ("WWW-Authenticate" ++ ":").toUTF8.toList rl5 = false ∧
-    hdrPred ("WWW-Authenticate" ++ ":").toUTF8.toList rl6 = true := by decide +kernel
-
-theorem predC_concrete :
-    hdrPred ("Content-Length" ++ ":").toUTF8.toList rl1 = false ∧
-    hdrPred ("Content-Length" ++ ":").toUTF8.toList rl3 = false ∧
-    hdrPred ("Content-Length" ++ ":").toUTF8.toList rl4 = true ∧
-    parseDec (trimSp (rl4.drop ("Content-Length" ++ ":").toUTF8.toList.length)) = some 188 := by
-  decide +kernel
+theorem any_rest (env : Env) (h : (Texts.hdrs1 ++ Texts.hdrs2 ++ Texts.hdrs3).any (Texts.isHdr Texts.wwwName) = true) :
+    (Texts.restLines env).any (Texts.isHdr Texts.wwwName) = true := by
+  unfold Texts.restLines
+  simp only [List.any_append, Bool.or_eq_true] at h ⊢
+  rcases h with (h | h) | h
+  · exact Or.inl (Or.inl (Or.inl (Or.inl h)))
+  · exact Or.inl (Or.inl (Or.inr h))
+  · exact Or.inr h
 
 /-- **The 401 response is well-formed** for every date text without CR/LF: status line
-    `HTTP/1.1 401`, a WWW-Authenticate header, Content-Length = number of body bytes. -/
+    `HTTP/1.1 401`, a WWW-Authenticate header, Content-Length = number of body bytes.
+    Of the generated text only the facts of Proofs/Texts/Facts are used. -/
 theorem reply_wf (env : Env) (hd : ∀ b ∈ env.httpDate, b ≠ 10 ∧ b ≠ 13) :
     reply401Ok (httpReplyBytes env) = true := by
-  rw [reply_shape]
-  have hcc := concrete_clean
+  rw [Texts.httpReply_eq, ← intercalate_eq_glue]
+  have hfix := clean_of_all Texts.lines_clean
+  have hdig : ∀ b ∈ natDec Gen.httpContent.length, b ≠ 10 ∧ b ≠ 13 := fun b hb =>
+    ⟨(Texts.digit_ne (Texts.natDec_digits _ b hb)).1, (Texts.digit_ne (Texts.natDec_digits _ b hb)).2.1⟩
+  have hearly := Texts.no_early_cl
+  simp only [List.any_append, Bool.or_eq_false_iff] at hearly
   apply reply401Ok_of_lines
   · intro l hl
-    simp only [List.mem_cons, List.not_mem_nil, or_false] at hl
-    rcases hl with rfl | rfl | rfl | rfl | rfl | rfl | rfl
-    · exact hcc _ (by simp)
-    · exact hcc _ (by simp)
-    · have hD := hcc rlDate (by simp)
-      refine ⟨?_, ?_, ?_⟩
-      · intro e
-        have := List.append_eq_nil_iff.1 e
-        exact hD.1 this.1
-      · intro hm
-        rcases List.mem_append.1 hm with h | h
-        · exact hD.2.1 h
-        · exact (hd _ h).1 rfl
-      · intro hm
-        rcases List.mem_append.1 hm with h | h
-        · exact hD.2.2 h
-        · exact (hd _ h).2 rfl
-    · exact hcc _ (by simp)
-    · exact hcc _ (by simp)
-    · exact hcc _ (by simp)
-    · exact hcc _ (by simp)
-  · exact content_no_cr
-  · exact status_prefix
+    simp only [Texts.restLines, List.mem_cons, List.mem_append, List.not_mem_nil, or_false] at hl
+    rcases hl with rfl | (((hl | rfl) | hl) | rfl) | hl
+    · exact hfix _ (by simp [Texts.fixedLines])
+    · exact hfix _ (by simp [Texts.fixedLines, hl])
+    · exact append_clean Texts.datePre_clean hd
+    · exact hfix _ (by simp [Texts.fixedLines, hl])
+    · exact append_clean Texts.clPre_clean hdig
+    · exact hfix _ (by simp [Texts.fixedLines, hl])
+  · rw [← Texts.status12_eq]; exact Texts.status_ok
+  · rw [headerValue_eq, Option.isSome_map, List.find?_isSome]
+    have := any_rest env Texts.challenge
+    rw [List.any_eq_true] at this
+    obtain ⟨l, hl, hp⟩ := this
+    exact ⟨l, hl, hp⟩
   · rw [headerValue_eq]
-    obtain ⟨h1, h3, h4, h5, h6⟩ := predW_concrete
-    simp only [List.find?_cons, h1, h3, h4, h5, h6, predW_date, Option.map_some, Option.isSome_some]
-  · rw [headerValue_eq, content_length]
-    obtain ⟨h1, h3, h4, hp⟩ := predC_concrete
-    simp only [List.find?_cons, h1, h3, h4, predC_date, Option.map_some, Option.bind_some, hp]
+    have hfind : (Texts.restLines env).find? (Texts.isHdr Texts.clName) =
+        some (Texts.clPre ++ natDec Gen.httpContent.length) := by
+      unfold Texts.restLines
+      simp only [List.append_assoc]
+      rw [find?_skip _ hearly.1, List.cons_append, List.find?_cons, predC_date, List.nil_append,
+        find?_skip _ hearly.2, List.cons_append, List.find?_cons, predC_cl]
+    show (Option.map _ ((Texts.restLines env).find? (Texts.isHdr Texts.clName))).bind parseDec = _
+    rw [hfind, Option.map_some, Option.bind_some]
+    show parseDec (trimSp ((Texts.clPre ++ natDec Gen.httpContent.length).drop Texts.clName.length)) = _
+    rw [Texts.clPre_eq, List.append_assoc, List.drop_left, List.singleton_append,
+      trimSp_sp_digits _ (fun b hb => (Texts.digit_ne (Texts.natDec_digits _ b hb)).2.2),
+      Texts.parseDec_natDec]
 
 end Masscanned.C13.Aux
